@@ -633,10 +633,40 @@ func lostPositions(r *dRun) []uint64 {
 	return lost
 }
 
+// unaccounted counts the messages whose Write returned before Close was called and that were not delivered before
+// Close returned; al is what the alerter was told.
+func unaccounted(r *dRun) (undelivered int, al int64, ok bool) {
+	wr, ret, _, al := r.counts()
+	if ret != wr || r.CloseHung != "" || r.ProducersHung != "" || r.cfg.NilAlerter {
+		return 0, al, false
+	}
+	closeRet := atomic.LoadInt64(&r.closeRet)
+	if closeRet == 0 {
+		return 0, al, false
+	}
+	delivered := map[string]bool{}
+	for _, d := range r.D() {
+		if !d.AfterWClose && d.Entry <= closeRet {
+			delivered[d.ID] = true
+		}
+	}
+	for _, w := range r.W() {
+		if w.Ret < r.closeCalled && !delivered[w.ID] {
+			undelivered++
+		}
+	}
+	return undelivered, al, true
+}
+
 func judgeC12(out *evid.Out, r *dRun) {
 	rep := r.describe()
 	rep["check"] = "c12"
 	viol := func(sig, desc string) { out.Violate(sig, desc+" "+r.cfg.String(), rep) }
+	// "reaches the wrapped writer or is reported dropped": what was not delivered must be covered by what the alerter
+	// was told (the positions skipped in the hook trace say nothing about whether the report reached the user)
+	if und, al, ok := unaccounted(r); ok && int64(und) > al {
+		viol("neither-delivered-nor-reported:"+lossClass(r), fmt.Sprintf("%d message(s) whose Write had returned before Close was called were not delivered when Close returned, but the alerter was told of %d only", und, al))
+	}
 	if strings.HasPrefix(r.CloseHung, "Close parked") {
 		viol("close-hangs", "Close cannot return: "+r.CloseHung)
 	} else if r.CloseHung != "" {
@@ -912,7 +942,8 @@ func c11Fatal(out *evid.Out) {
 	}
 	os.MkdirAll("/verif/build/out", 0o755)
 	ci := 0
-	for _, wrap := range []string{"plain", "filtered", "multi", "sync", "adapter", "multi-after-levelwriter", "multi-after-plainwriter", "multi-before-others", "sync-multi", "filtered-in-multi", "with-level-output"} {
+	for _, wrap := range []string{"plain", "filtered", "multi", "sync", "adapter", "multi-after-levelwriter", "multi-after-plainwriter", "multi-before-others", "sync-multi", "filtered-in-multi", "with-level-output",
+		"console-value", "console-pointer", "console-value-in-multi", "newconsole-output"} {
 		for _, n := range []int{0, 1, 5, 31} {
 			ci++
 			// the wrapping x count grid runs in waiter mode with Msg; poller mode, the other finalizers and
@@ -934,12 +965,16 @@ func c11Fatal(out *evid.Out) {
 				sc := bufio.NewScanner(fh)
 				for sc.Scan() {
 					lines++
-					if strings.Contains(sc.Text(), `"level":"fatal"`) {
+					if strings.Contains(sc.Text(), `"level":"fatal"`) || strings.Contains(sc.Text(), " FTL") {
 						fatal = true
 					}
 					var i int
 					if k := strings.Index(sc.Text(), `"i":`); k >= 0 {
 						if _, err := fmt.Sscanf(sc.Text()[k:], `"i":%d`, &i); err == nil {
+							seen[i] = true
+						}
+					} else if k := strings.Index(sc.Text(), " i="); k >= 0 { // console rendering
+						if _, err := fmt.Sscanf(sc.Text()[k:], " i=%d", &i); err == nil {
 							seen[i] = true
 						}
 					}
@@ -1021,6 +1056,15 @@ func c11FatalChild(args []string) int {
 		l = zerolog.New(zerolog.SyncWriter(zerolog.MultiLevelWriter(nopLevelWriter{}, dw)))
 	case "filtered-in-multi":
 		l = zerolog.New(zerolog.MultiLevelWriter(nopLevelWriter{}, &zerolog.FilteredLevelWriter{Writer: zerolog.LevelWriterAdapter{Writer: dw}, Level: zerolog.TraceLevel}))
+	case "console-value":
+		// a ConsoleWriter held by value in front of the diode: Fatal reaches the diode's Close through it
+		l = zerolog.New(zerolog.ConsoleWriter{Out: dw, NoColor: true})
+	case "console-pointer":
+		l = zerolog.New(&zerolog.ConsoleWriter{Out: dw, NoColor: true})
+	case "console-value-in-multi":
+		l = zerolog.New(zerolog.MultiLevelWriter(nopLevelWriter{}, zerolog.ConsoleWriter{Out: dw, NoColor: true}))
+	case "newconsole-output":
+		l = zerolog.New(io.Discard).Output(zerolog.NewConsoleWriter(func(w *zerolog.ConsoleWriter) { w.Out, w.NoColor = dw, true }))
 	case "with-level-output":
 		l = zerolog.New(io.Discard).With().Str("svc", "x").Logger().Level(zerolog.DebugLevel).Output(zerolog.MultiLevelWriter(nopLevelWriter{}, dw))
 	default:
